@@ -98,6 +98,12 @@ add("C08", EX, "EVERY legacy expression of depth <= 2 (3) over keys (str and tup
     "bounded exhaustive enumeration of a term grammar against a reference interpreter")
 add("C10", EX, "(a) _fuse_annotations on ALL ordered pairs of the 324 annotation dicts of the stated alphabet against the reference merge; (b) EVERY sequence of <= 3 blockwise steps (elementwise, transpose, second root, broadcast, new axis, concatenate=True reduction, contraction) x every chunking with numblocks <= 2x2 x root kinds, annotated per step: optimize_blockwise, fuse_roots and the array optimiser must compute the NumPy values and a fully fused stack must carry the reference-merged annotations; (c) HighLevelGraph.cull for EVERY non-empty subset of output blocks and Blockwise._cull_dependencies vs the materialised tasks.", "5/C10", ARR_NOTE,
     "bounded exhaustive enumeration of layer stacks x chunkings x output-block subsets with differential evaluation")
+add("C27", EX, "Every small 1-d/2-d array over a tiny value alphabet with duplicates and NaN x every chunking including empty chunks x every parameter combination of each counting/set/search/histogram routine (unique, bincount, histogram, histogram2d, digitize, searchsorted, isin, nonzero family, ravel/unravel_index, coarsen, compress), compared with NumPy including lazy shape/chunks and per-block shapes.", "5/C27", ARR_NOTE,
+    "bounded exhaustive enumeration of inputs (all chunkings x all small arrays x parameter grids) against a NumPy reference model")
+add("C33", EX, "Every mask (and nomask) of every small array x every chunking x three constructions x fill values x a fixed list of construction, elementwise, reduction/scan, accessor and masking operations, compared with numpy.ma (mask, unmasked data, dtype, fill value, block shapes).", "5/C33", ARR_NOTE,
+    "bounded exhaustive enumeration (all masks x all chunkings x operation list) against a numpy.ma reference")
+add("C34", EX, "A grid of arguments for each creation routine (arange incl. fractional/negative steps, linspace, eye, diag, diagonal, indices, meshgrid, fromfunction, tri, ones/zeros/full/empty and *_like) x every chunks argument, compared with the NumPy routine for values (ulp-level tolerance only for float ranges), dtype, shape, chunks and per-block shapes.", "5/C34", ARR_NOTE,
+    "bounded exhaustive enumeration of argument grids x all chunk specifications against NumPy")
 
 
 def build():
